@@ -34,6 +34,9 @@ type Scenario struct {
 	IngressClass string
 	Grace     int32
 	RolloutID bool
+	// StaleCanaryService pre-creates "<svc>-canary" selecting some long-gone revision (a leftover of an earlier,
+	// interrupted rollout): legal input the controllers must re-point before routing to it.
+	StaleCanaryService bool
 	// Deviation alphabet (user actions) enabled in this scenario.
 	Actions []string
 	NS      string
@@ -145,6 +148,13 @@ func (sc *Scenario) Build(w *World) error {
 	if sc.Traffic != "" {
 		svc := &corev1.Service{ObjectMeta: metav1.ObjectMeta{Namespace: ns, Name: AppName},
 			Spec: corev1.ServiceSpec{Selector: map[string]string{"app": AppName}, Ports: []corev1.ServicePort{{Port: 80, TargetPort: intstr.FromInt(8080)}}}}
+		if err := w.Raw.Create(ctx, svc); err != nil {
+			return err
+		}
+	}
+	if sc.Traffic != "" && sc.StaleCanaryService {
+		svc := &corev1.Service{ObjectMeta: metav1.ObjectMeta{Namespace: ns, Name: AppName + "-canary"},
+			Spec: corev1.ServiceSpec{Selector: map[string]string{"app": AppName, "pod-template-hash": "stale0"}, Ports: []corev1.ServicePort{{Port: 80, TargetPort: intstr.FromInt(8080)}}}}
 		if err := w.Raw.Create(ctx, svc); err != nil {
 			return err
 		}
